@@ -43,8 +43,10 @@ CheckStages(sn, ph) ==
                     ELSE ~(g.vals = o[1] /\ g.done = o[2] /\ g.err = o[3]) }
       emptyred == \E sid \in DOMAIN sn : sn[sid].closed /\ sn[sid].ev = <<>> /\ sn[sid].kind \in {"max", "min", "last", "sum"}
   IN SetToSeq({ F("StageOutput", sid, IF emptyred THEN "empty-reduction" ELSE "") : sid \in bad })
+\* "doneX": deactivated from inside a call of the probed function (what the execution context holds afterwards is C05's business)
+IsDone(ph) == ph \in {"done", "doneX"}
 CheckClean(ph) ==
-  LET clean == S.orig /\ S.curnone /\ ~S.registered
+  LET clean == S.orig /\ (S.curnone \/ ph = "doneX") /\ ~S.registered
       emptyred == \E sid \in DOMAIN seen : seen[sid].ev = <<>> /\ seen[sid].kind \in {"max", "min", "last", "sum"} /\ seen[sid].live
   IN IF ph = "active" THEN (IF ~S.orig /\ ~S.curnone /\ S.registered THEN <<>> ELSE <<F("NotInstalled", "", "")>>)
      ELSE IF clean THEN <<>> ELSE <<F("NotClean", "", IF emptyred THEN "empty-reduction" ELSE "")>>
@@ -53,7 +55,7 @@ Step ==
   /\ l <= Len(T.steps) /\ l' = l + 1 /\ UNCHANGED tid
   /\ LET op == S.op IN
      CASE op[1] = "stage" ->
-            LET sn == (op[2] :> [kind |-> op[3], ev |-> <<>>, live |-> phase # "done", closed |-> FALSE, bare |-> Len(op) > 3]) @@ seen
+            LET sn == (op[2] :> [kind |-> op[3], ev |-> <<>>, live |-> ~IsDone(phase), closed |-> FALSE, bare |-> Len(op) > 3]) @@ seen
             IN /\ seen' = sn /\ phase' = phase
                /\ fails' = fails \o CheckStages(sn, phase) \o CheckClean(phase)
                            \o (IF S.outcome = "ok" THEN <<>> ELSE <<F("Outcome", "stage", S.outcome)>>)
@@ -68,13 +70,25 @@ Step ==
                 \* an empty max/min/last/sum has no result: giving reports that as a stream error, which is raised from the
                 \* deactivation when the stage was subscribed without an error handler (trusted giving/reactivex semantics)
                 mustRaise == \E sid \in DOMAIN sn : sn[sid].live /\ sn[sid].bare /\ sn[sid].ev = <<>> /\ sn[sid].kind \in {"max", "min", "last", "sum"}
-            IN /\ phase' = "done" /\ seen' = sn
-               /\ fails' = fails \o CheckStages(sn, "done") \o CheckClean("done")
+                ph2 == IF phase = "doneX" THEN "doneX" ELSE "done"
+            IN /\ phase' = ph2 /\ seen' = sn
+               /\ fails' = fails \o CheckStages(sn, ph2) \o CheckClean(ph2)
                            \o (IF (S.outcome = "ok") = ~mustRaise THEN <<>>
                                ELSE <<F("DeactivateOutcome", "", S.outcome)>>)
+       [] op[1] = "calld" ->
+            \* ["calld", v, how, sid]: f(v) is called; when it reaches its call of g the probe is deactivated and an accumulating
+            \* stage sid is attached; f then goes on (T.per = 2: its second event falls after the deactivation)
+            LET first == IF phase = "active"
+                         THEN [sid \in DOMAIN seen |-> IF seen[sid].live THEN [seen[sid] EXCEPT !.ev = Append(@, op[2] + 1)] ELSE seen[sid]]
+                         ELSE seen
+                closed == [sid \in DOMAIN first |-> IF first[sid].live THEN [first[sid] EXCEPT !.closed = TRUE] ELSE first[sid]]
+                sn == (op[4] :> [kind |-> "accum", ev |-> <<>>, live |-> FALSE, closed |-> FALSE, bare |-> FALSE]) @@ closed
+            IN /\ phase' = "doneX" /\ seen' = sn
+               /\ fails' = fails \o CheckStages(sn, "doneX") \o CheckClean("doneX")
+                           \o (IF S.outcome = "ok" THEN <<>> ELSE <<F("Outcome", "calld", S.outcome)>>)
        [] op[1] = "call" ->
             LET sn == IF phase = "active"
-                      THEN [sid \in DOMAIN seen |-> IF seen[sid].live THEN [seen[sid] EXCEPT !.ev = Append(@, op[2] + 1)] ELSE seen[sid]]
+                      THEN [sid \in DOMAIN seen |-> IF seen[sid].live THEN [seen[sid] EXCEPT !.ev = @ \o [i \in 1..T.per |-> op[2] + 1]] ELSE seen[sid]]
                       ELSE seen
             IN /\ seen' = sn /\ phase' = phase
                /\ fails' = fails \o CheckStages(sn, phase) \o CheckClean(phase)
